@@ -23,7 +23,17 @@ RULE = (
     "the other for the first menu and swapped for the second, at one (rotating) sky level, inversion cases once per formalism (slim for mapping, mask-in-fit for "
     "w-tilde; steps b+c or d rotating); tiny-coefficient lists = a mapper with Constant(coefficient 3e-5 / 5e-5) alone and "
     "next to normally regularized / unregularized objects on every 8th mask (quick) / every mask (thorough); "
-    "non-trivial = plain: the mask has masked pixels; inversion: the list has >= 2 objects or is partially unregularized"
+    "structures under their own mask (mask-in-fit mode) = the noise map - and, alternating, the model image - is a native-"
+    "stored structure carrying a mask DIFFERENT from the fit's (= the data's): none at all, a smaller one, a larger one, a "
+    "shifted one (the whole family for every plain mask and both menus at one rotating sky level; one rotating member per "
+    "inversion case in one formalism), holding the true value wherever the fit or its own mask leaves the pixel unmasked "
+    "and garbage elsewhere: every statistic must be the one over the FIT's unmasked pixels; "
+    "datasets in other units = the inversion datasets with data and noise map multiplied by a factor from 1e-40 to 1e+40, "
+    "every regularization coefficient divided by it (Zeroth and ConstantZeroth at every factor, Constant at factors >= 1 "
+    "only), the unregularized-diagonal setting divided by its square, sky level and garbage multiplied by it, 6 lists "
+    "(regularized, partially unregularized, regularized function list) in both formalisms and fit modes, plus an 18x18 "
+    "rectangular mapper (324 regularized parameters) at factors 1e-3, 1, 1e3; every evidence term must be finite and equal "
+    "to the formula; non-trivial = plain: the mask has masked pixels; inversion: the list has >= 2 objects or is partially unregularized"
 )
 ASSUMPTIONS = [
     "every statistic is a composition of element-wise operations and sums over pixels, so labelled menus with mixed "
@@ -43,15 +53,31 @@ ASSUMPTIONS = [
     "must keep its values (bitwise) and share no memory with maps of later fits",
     "tiny-coefficient lists: H = c^2 L + 1e-8 I with c^2 ~ 1e-9 is well conditioned (cond < 2), so its log-determinant "
     "is demanded to ~1e-9; the curvature side uses the usual condition-aware tolerance",
+    "structures under their own mask: the fit's mask is the dataset's (= the data's) mask, whatever mask the noise map or "
+    "the model image were built with; a noise map stored without a mask (or under a smaller one) legitimately carries a "
+    "positive RMS value in pixels the fit masks, and one under a larger mask can hold its values there only through public "
+    "arithmetic (Array2D + ndarray), which is how they are placed; noise is positive in every pixel the fit leaves unmasked",
+    "other units: F, H (the inversion's own regularization matrix, which already contains the library's fixed 1e-8 ridge, "
+    "so no exact-rescaling argument is needed) and s as in the unit-scale cases; reference log-determinants = 2*sum(log "
+    "sqrt(diag)) + slogdet of the symmetrically equilibrated matrix, i.e. sums of logs only, with the condition-aware "
+    "tolerance taken on the equilibrated matrix; all other tolerances are purely relative to the reference's magnitude "
+    "(no absolute floor of 1), so quantities of size 1e-40 or 1e+40 are compared to ~1e-9 of themselves; Constant "
+    "regularization with a coefficient scaled up by more than ~1e4 makes c^2 L + 1e-8 I numerically singular (the ridge "
+    "vanishes below rounding) - such matrices have no defined log-determinant and are outside the enumeration; the "
+    "positive-only solver and the second-fit histories are not repeated in other units",
 ]
 BOUNDS = {
     "quick": "plain: all 3187 masks with <= 9 cells (3x3, 2x4, 4x2, 1x9 ... 1x1) x 2 value menus x 2 sky levels x "
              "(1 slim + 4 garbage assignments); inversion: all 502 interior masks (>=2 pixels) of the 5x5 frame/3x3 PSF, "
              "each with a rotating third of the 54 ordered object lists (length 1..2 over {rectA,rectB,del,func,funcS} "
              "with regularization flags, plus a length-3 menu), PSF kind/sub-size/solver rotating, both formalisms; 6 tiny-"
-             "coefficient lists on every 8th interior mask; second-fit history in every case (see rule)",
+             "coefficient lists on every 8th interior mask; second-fit history in every case (see rule); own-mask family "
+             "(<= 4 masks per fit mask) on all 3187 plain masks x 2 menus and one member per inversion case; other units: "
+             "every 8th interior mask x 6 lists x one (rotating) factor of {1e-40, 1e-20, 1e-6, 1e6, 1e20, 1e40}; 324-"
+             "parameter mapper: 3 interior masks (9, 5 and 2 pixels) x 3 lists x one rotating factor of {1e-3, 1, 1e3}",
     "thorough": "plain: all 35943 masks with <= 12 cells; inversion: all 502 interior masks x all 54 lists x both PSF kinds, "
-                "tiny-coefficient lists on every interior mask",
+                "tiny-coefficient lists on every interior mask; other units: every interior mask x 6 lists x all 6 factors; "
+                "324-parameter mapper: every 8th interior mask x 3 lists x all 3 factors",
 }
 
 GARBAGE = [0.0, 7.0, -3.0, 1.0e6]
@@ -162,7 +188,73 @@ def reg_flag(r):
     """regularization flag of an object list entry -> (regularized?, Constant coefficient)."""
     if isinstance(r, bool):
         return r, 1.0
+    if isinstance(r, (list, tuple)):  # a named scheme, see make_reg
+        return True, 1.0
     return True, float(r)
+
+
+# The same dataset expressed in other (extreme but legal) units: data and noise-map are multiplied by the factor, every
+# regularization coefficient (and the diagonal added for unregularized parameters) is divided by it / its square.
+UNITS = [1e-40, 1e-20, 1e-6, 1e6, 1e20, 1e40]
+UNITS_LARGE = [1e-3, 1.0, 1e3]  # for the few-hundred-parameter mapper (|log det| beyond 1418 = log(max double) * 2 at both ends)
+
+
+def _z(c):
+    return ["zeroth", c]
+
+
+def _cz(c, cz):
+    return ["constant-zeroth", c, cz]
+
+
+def _c(c):
+    return ["constant", c]
+
+
+def unit_lists():
+    """
+    Lists for the other-units cases. A flag [scheme, coefficients at unit scale] names the regularization scheme: Zeroth
+    (H = c^2 I, an exact rescaling), ConstantZeroth (H = cz^2 I + c^2 L + 1e-8 I) and Constant (H = c^2 L + 1e-8 I).
+    """
+    return [
+        [["rectA"], [_z(0.7)]],
+        [["del"], [_cz(1.0, 0.5)]],
+        [["rectB", "func"], [_cz(0.8, 0.6), False]],
+        [["funcS", "rectA", "rectB"], [False, _z(1.3), _cz(1.0, 0.4)]],
+        [["rectA", "del"], [_c(1.0), _z(0.9)]],
+        [["func", "rectB"], [_z(0.5), _c(2.0)]],
+    ]
+
+
+def large_lists():
+    """A rectangular mapper with 18x18 = 324 regularized parameters, alone and next to an unregularized function list."""
+    return [
+        [["rectL"], [_cz(1.0, 0.5)]],
+        [["rectL", "func"], [_z(0.7), False]],
+        [["rectL"], [_c(1.0)]],
+    ]
+
+
+def unit_menu(ol, menu):
+    """
+    Constant alone is c^2 L + 1e-8 I with L singular: in units < 1 the scaled coefficient makes the fixed 1e-8 ridge vanish
+    below rounding (H numerically singular, no defined log-determinant), so lists using it are enumerated at factors >= 1.
+    """
+    if any(isinstance(r, list) and r[0] == "constant" for r in ol[1]):
+        return [u for u in menu if u >= 1.0]
+    return list(menu)
+
+
+def make_reg(aa, r, units):
+    if not isinstance(r, (list, tuple)):
+        return None
+    if r[0] == "zeroth":
+        return aa.reg.Zeroth(coefficient=r[1] / units)
+    if r[0] == "constant-zeroth":
+        return aa.reg.ConstantZeroth(coefficient_neighbor=r[1] / units, coefficient_zeroth=r[2] / units)
+    if r[0] == "constant":
+        return aa.reg.Constant(coefficient=r[1] / units)
+    raise ValueError(r)
 
 
 def cases(tier, seed):
@@ -182,6 +274,25 @@ def cases(tier, seed):
             continue
         for k, ol in enumerate(tiny_lists()):
             yield ["inv", list(frame), list(ks), bits, fix_inv.PSF_KINDS[(k + i) % 2], 1 + (k + i // 2) % 2, ol, False, (k + i) % 2 == 0, seed]
+    # the same datasets in other units (few and cheap), then the few-hundred-parameter mapper
+    for i, bits in enumerate(fam):
+        if tier == "quick" and i % 8 != 5:
+            continue
+        for k, ol in enumerate(unit_lists()):
+            menu = unit_menu(ol, UNITS)
+            for j, un in enumerate(menu):
+                if tier == "quick" and j != (i // 8 + k) % len(menu):
+                    continue
+                yield ["invu", list(frame), list(ks), bits, fix_inv.PSF_KINDS[(k + i + j) % 2], 1 + (k + i // 2) % 2, ol, un, (k + i) % 2 == 0, seed]
+    full = max(fam, key=lambda b: bin(b).count("1"))
+    big = [full, fam[len(fam) // 2], fam[0]] if tier == "quick" else [b for i, b in enumerate(fam) if i % 8 == 1 or b == full]
+    for i, bits in enumerate(big):
+        for k, ol in enumerate(large_lists()):
+            menu = unit_menu(ol, UNITS_LARGE)
+            for j, un in enumerate(menu):
+                if tier == "quick" and j != (i + k) % len(menu):
+                    continue
+                yield ["invu", list(frame), list(ks), bits, fix_inv.PSF_KINDS[(k + i) % 2], 2, ol, un, (k + i) % 2 == 1, seed]
     for i, bits in enumerate(fam):
         for k, ol in enumerate(lists):
             if tier == "quick":
@@ -288,14 +399,15 @@ def _scal(x):
     return float(np.asarray(getattr(x, "array", x), dtype=float))
 
 
-def _close(a, b, atol_abs=0.0):
+def _close(a, b, atol_abs=0.0, floor=1.0):
+    """floor: lower bound of the magnitude the absolute tolerance refers to (0.0 = purely relative to the reference's magnitude)."""
     if a is None or b is None:
         return a is None and b is None
     a = np.asarray(a, dtype=float)
     b = np.asarray(b, dtype=float)
     if a.shape != b.shape:
         return False
-    scale = max(1.0, float(np.max(np.abs(b[np.isfinite(b)]))) if np.isfinite(b).any() else 1.0)
+    scale = max(floor, float(np.max(np.abs(b[np.isfinite(b)]))) if np.isfinite(b).any() else floor)
     return bool(np.allclose(a, b, rtol=RTOL, atol=1e-12 * scale + atol_abs, equal_nan=True))
 
 
@@ -307,15 +419,15 @@ class Acc:
     class; a quantity whose observed value changes with the garbage in masked pixels is a `masked-garbage-leaks:` class.
     """
 
-    def __init__(self, v, mode, tag, reported=None, suffix=None):
-        self.v, self.mode, self.tag, self.suffix = v, mode, tag, suffix
+    def __init__(self, v, mode, tag, reported=None, suffix=None, floor=1.0):
+        self.v, self.mode, self.tag, self.suffix, self.floor = v, mode, tag, suffix, floor
         self.rec = {}
         self.order = []
         self.reported = set(reported or ())
 
     def add(self, q, obs, ref, comp=None, atol=0.0, variant=0):
-        e2e = _close(obs, ref, atol)
-        cok = e2e or (comp is not None and _close(obs, comp, atol))
+        e2e = _close(obs, ref, atol, self.floor)
+        cok = e2e or (comp is not None and _close(obs, comp, atol, self.floor))
         if q not in self.rec:
             self.rec[q] = []
             self.order.append(q)
@@ -340,7 +452,7 @@ class Acc:
             varies = False
             if self.mode == "mask-in-fit" and len(recs) > 1:
                 o0 = recs[0][2]
-                varies = any(not _close(r[2], o0) for r in recs[1:])
+                varies = any(not _close(r[2], o0, 0.0, self.floor) for r in recs[1:])
             if self.suffix:
                 cls = "%s:%s" % (q, self.suffix)  # history classes: the quantity and the history, not the mode
             elif varies:
@@ -585,20 +697,99 @@ def history(v, aa, mode, mask, m, ds, fit1, dm, d_eff, d_raw_nat, model_nat, noi
     return rep
 
 
-def run_fits(v, aa, mask, m, d_nat, model_nat, noise_nat, tag, inversion=None, inv_ref=None, reported=None, hist=None):
+OWN_MASK = "structures-under-their-own-mask"
+
+
+def own_mask_family(m, salt):
+    """
+    The masks (same shape) a native-stored noise map / model image may carry INSTEAD of the fit's mask `m` (= the data's
+    mask): no mask at all (an array as loaded from file), a smaller one (every other masked pixel of `m` unmasked), a larger
+    one (every other unmasked pixel of `m` masked as well) and a shifted one (neither subset nor superset in general).
+    """
+    flat = m.ravel()
+    masked, unm = np.flatnonzero(flat), np.flatnonzero(~flat)
+    cand = [("no-mask", np.zeros_like(m))]
+    if len(masked) >= 2:
+        k = flat.copy()
+        k[masked[salt % 2::2]] = False
+        cand.append(("smaller-mask", k.reshape(m.shape)))
+    if len(unm) >= 2:
+        k = flat.copy()
+        k[unm[salt % 2::2]] = True
+        cand.append(("larger-mask", k.reshape(m.shape)))
+    o = other_mask(m)
+    if o is not None:
+        cand.append(("shifted-mask", o))
+    out, seen = [], {m.tobytes()}
+    for name, k in cand:
+        if k.tobytes() not in seen and not k.all():
+            seen.add(k.tobytes())
+            out.append((name, k))
+    return out
+
+
+def native_under_own_mask(aa, k, pixel_scales, vals_native):
+    """
+    Native-stored Array2D under its OWN mask `k` whose native array is `vals_native` in every pixel (the entries its own
+    mask hides are put there by public arithmetic, as in native_with_garbage).
+    """
+    mk = aa.Mask2D(mask=k.copy(), pixel_scales=pixel_scales)
+    a = aa.Array2D(values=np.where(k, 0.0, vals_native), mask=mk, store_native=True) + np.where(k, vals_native, 0.0)
+    if np.array(a, dtype=float).shape != k.shape or not np.array_equal(np.array(a, dtype=float), vals_native) \
+            or not np.array_equal(np.array(a.mask, dtype=bool), k):
+        raise RuntimeError("harness: could not build a native-stored array under its own mask")
+    return a
+
+
+def own_mask_fits(v, aa, mask, m, dm, d_eff, d_raw, d_clean, model_nat, noise_nat, tag, own, inversion, inv_ref, reported, gscale, floor):
+    """
+    Mask-in-fit fits whose noise map (and model image) are structures carrying their own, different mask: their native
+    arrays hold the true value in every pixel the FIT leaves unmasked and in every pixel their own mask leaves unmasked
+    (a positive RMS value there, as a noise map loaded without a mask has), garbage where both masks hide the pixel.
+    The statistics must be those over the fit's unmasked pixels.
+    """
+    u = ~m
+    Fit = fit_cls()
+    fam = own_mask_family(m, own["salt"])
+    if not fam:
+        return set()
+    idx = range(len(fam)) if own.get("count") is None else [(own["salt"] + i) % len(fam) for i in range(own["count"])]
+    acc = Acc(v, "mask-in-fit", "%s mode=mask-in-fit" % tag, reported, suffix=OWN_MASK, floor=floor)
+    for j in idx:
+        gd, gm, gs = (g * gscale for g in garbage_triplet(j + own["salt"]))
+        name_n, kn = fam[j]
+        noise = native_under_own_mask(aa, kn, mask.pixel_scales, np.where(u | ~kn, noise_nat, gs))
+        if (j + own["salt"]) % 2 == 1:
+            name_m, km = fam[(j + 1) % len(fam)]
+            model = native_under_own_mask(aa, km, mask.pixel_scales, np.where(u | ~km, model_nat, gm))
+        else:
+            name_m, model = "the fit's mask", native_with_garbage(aa, mask, m, np.where(m, 0.0, model_nat), gm)
+        ds = aa.Imaging(data=native_with_garbage(aa, mask, m, d_clean, gd), noise_map=noise)
+        fit = Fit(ds, model, inversion=inversion, use_mask_in_fit=True, dataset_model=dm)
+        if not np.array_equal(np.array(fit.mask, dtype=bool), m):
+            raise RuntimeError("harness: the fit's mask is not the data's mask")
+        observe_fit(acc, fit, ds, "mask-in-fit", u, d_eff, d_raw, model_nat[u], noise_nat[u],
+                    "noise map under %s, model under %s" % (name_n, name_m), inv_ref)
+    return acc.finish()
+
+
+def run_fits(v, aa, mask, m, d_nat, model_nat, noise_nat, tag, inversion=None, inv_ref=None, reported=None, hist=None,
+             own=None, skies=None, gscale=1.0, floor=1.0):
     """
     All modes x sky levels x garbage assignments for one (data, model, noise) triple given on the native frame.
     hist: None or {"sky": level at which the second-fit history runs, "salt": int, "slim": steps, "mask-in-fit": steps}.
+    own: None or {"sky": level at which the own-mask structures run, "salt": int, "count": None (whole family) or n}.
+    skies / gscale / floor: sky levels, garbage scale and magnitude floor of the tolerances (datasets in other units).
     """
     u = ~m
     Fit = fit_cls()
     rep_all = set()
-    for sky in SKIES:
+    for sky in (SKIES if skies is None else skies):
         dm = aa.DatasetModel(background_sky_level=sky) if sky != 0.0 else None
         d_raw = d_nat[u] + sky  # what the dataset stores; the fit subtracts the sky again
         d_eff = d_raw - sky if sky != 0.0 else d_raw
         # ---- slim mode
-        acc = Acc(v, "slim", "%s sky=%s mode=slim" % (tag, sky), reported)
+        acc = Acc(v, "slim", "%s sky=%s mode=slim" % (tag, sky), reported, floor=floor)
         ds = aa.Imaging(data=aa.Array2D(values=d_raw.copy(), mask=mask), noise_map=aa.Array2D(values=noise_nat[u].copy(), mask=mask))
         fit = Fit(ds, aa.Array2D(values=model_nat[u].copy(), mask=mask), inversion=inversion, use_mask_in_fit=False, dataset_model=dm)
         observe_fit(acc, fit, ds, "slim", u, d_eff, d_raw, model_nat[u], noise_nat[u], 0, inv_ref)
@@ -607,21 +798,24 @@ def run_fits(v, aa, mask, m, d_nat, model_nat, noise_nat, tag, inversion=None, i
             rep_all |= history(v, aa, "slim", mask, m, ds, fit, dm, d_eff, d_nat + sky, model_nat, noise_nat, "%s sky=%s" % (tag, sky),
                                hist["slim"], hist["salt"], inversion, inv_ref, reported)
         # ---- mask-in-fit mode, native-stored arrays, garbage in masked pixels
-        acc = Acc(v, "mask-in-fit", "%s sky=%s mode=mask-in-fit" % (tag, sky), reported)
+        acc = Acc(v, "mask-in-fit", "%s sky=%s mode=mask-in-fit" % (tag, sky), reported, floor=floor)
         clean_d = np.where(m, 0.0, d_nat + sky)
         clean_m = np.where(m, 0.0, model_nat)
         clean_s = np.where(m, 0.0, noise_nat)
         for j in range(4):
-            gd, gm, gs = garbage_triplet(j)
+            gd, gm, gs = (g * gscale for g in garbage_triplet(j))
             ds = aa.Imaging(data=native_with_garbage(aa, mask, m, clean_d, gd), noise_map=native_with_garbage(aa, mask, m, clean_s, gs))
             fit = Fit(ds, native_with_garbage(aa, mask, m, clean_m, gm), inversion=inversion, use_mask_in_fit=True, dataset_model=dm)
-            observe_fit(acc, fit, ds, "mask-in-fit", u, d_eff, d_raw, model_nat[u], noise_nat[u], "garbage(d,m,n)=%s" % (garbage_triplet(j),), inv_ref)
+            observe_fit(acc, fit, ds, "mask-in-fit", u, d_eff, d_raw, model_nat[u], noise_nat[u], "garbage(d,m,n)=%s" % ((gd, gm, gs),), inv_ref)
             if j == 0:
                 ds0, fit0 = ds, fit
         rep_all |= acc.finish()
         if hist and sky == hist["sky"] and hist.get("mask-in-fit"):
             rep_all |= history(v, aa, "mask-in-fit", mask, m, ds0, fit0, dm, d_eff, d_nat + sky, model_nat, noise_nat, "%s sky=%s" % (tag, sky),
                                hist["mask-in-fit"], hist["salt"], inversion, inv_ref, reported)
+        if own and sky == own["sky"]:
+            rep_all |= own_mask_fits(v, aa, mask, m, dm, d_eff, d_raw, clean_d, model_nat, noise_nat, "%s sky=%s" % (tag, sky), own,
+                                     inversion, inv_ref, reported, gscale, floor)
     return rep_all
 
 
@@ -634,6 +828,9 @@ def run_case(case):
     v = V(ID)
     if case[0] == "plain":
         run_plain(aa, v, case)
+    elif case[0] == "invu":
+        # [.., object list, units, extra, seed]: the same dataset in other units, never the positive-only solver
+        run_inv(aa, v, ["inv"] + list(case[1:7]) + [False] + list(case[8:]), units=float(case[7]), scaled=True)
     else:
         run_inv(aa, v, case)
     return v.result()
@@ -659,25 +856,51 @@ def run_plain(aa, v, case):
         swap = (bits + MENUS.index(menu)) % 2 == 1
         hist = {"sky": SKIES[(bits + h) % 3], "salt": bits + w,
                 "slim": ("edit",) if swap else ("own",), "mask-in-fit": ("own",) if swap else ("edit",)}
-        run_fits(v, aa, mask, m, d, mod, s, "menu=%s" % menu, hist=hist)
+        own = {"sky": SKIES[(bits + h + 1 + MENUS.index(menu)) % 3], "salt": bits + MENUS.index(menu), "count": None}
+        run_fits(v, aa, mask, m, d, mod, s, "menu=%s" % menu, hist=hist, own=own)
     v.outcome = "plain:n%d:%s" % (int(u.sum()), "+".join(sorted(flags)))
 
 
-def run_inv(aa, v, case):
+def logdet_equilibrated(A):
+    """
+    (sign, log det, tolerance) of a symmetric matrix with positive diagonal, as 2*sum(log d) + slogdet(D^-1 A D^-1) with
+    d = sqrt(diag A): never forms a product that can leave the double range, and the tolerance is ld_tol of the
+    equilibrated matrix (the accuracy of a Cholesky / LU log-determinant is governed by that condition number) plus the
+    rounding of the sum of logs.
+    """
+    d = np.diag(A).astype(float)
+    if A.size == 0:
+        return 1.0, 0.0, LD_FLOOR
+    if not (d > 0).all() or not np.isfinite(A).all():
+        return 0.0, np.nan, np.inf
+    d = np.sqrt(d)
+    As = A / d[:, None] / d[None, :]
+    sg, ld = np.linalg.slogdet(As)
+    logs = 2.0 * np.log(d)
+    return float(sg), float(ld + np.sum(logs)), ld_tol(As) + 8.0 * np.finfo(float).eps * float(np.sum(np.abs(logs)))
+
+
+def run_inv(aa, v, case, units=1.0, scaled=False):
+    """scaled: the dataset is expressed in `units` (see UNITS); every tolerance is then relative to the term's magnitude."""
     _, frame, ks, bits, psf_kind, sub, (kinds, regs), positive, extra, seed = case
-    fx = fix_inv.make_dataset(frame, ks, bits, psf_kind=psf_kind, seed=seed, sub=sub)
+    fx = fix_inv.make_dataset(frame, ks, bits, psf_kind=psf_kind, seed=seed, sub=sub, units=units)
     m = fx["mask_bool"]
     u = ~m
     mask = fx["mask"]
     partial = any(regs) and not all(regs)
     v.nontrivial = len(kinds) >= 2 or partial
-    tiny = any(not isinstance(r, bool) for r in regs)
-    regtag = "".join(("R" if isinstance(r, bool) else "t") if r else "u" for r in regs)
-    diag = 1e-3
+    tiny = any(isinstance(r, float) for r in regs)
+    regtag = "".join(("R" if isinstance(r, bool) else ("t" if isinstance(r, float) else r[0][0].upper() + r[0][-1])) if r else "u" for r in regs)
+    if scaled:
+        regtag += "/units=%g" % units
+    # the diagonal added for unregularized parameters is a curvature (1 / units^2): scaled with the dataset
+    diag = 1e-3 / units ** 2 if scaled else 1e-3
+    floor = 0.0 if scaled else 1.0
     npix = bin(bits).count("1")
 
     def make_objs(f):
-        return [fix_inv.make_obj(f, k, reg=reg_flag(r)[0], seed=seed, coefficient=reg_flag(r)[1]) for k, r in zip(kinds, regs)]
+        return [fix_inv.make_obj(f, k, reg=reg_flag(r)[0], seed=seed, coefficient=reg_flag(r)[1], regularization=make_reg(aa, r, units))
+                for k, r in zip(kinds, regs)]
 
     objs0 = make_objs(fx)
     B, widths = fix_inv.reference_B(fx, objs0)
@@ -693,7 +916,7 @@ def run_inv(aa, v, case):
 
     for wt in (False, True):
         objs = make_objs(fx)  # fresh graph per inversion
-        fxi = fix_inv.make_dataset(frame, ks, bits, psf_kind=psf_kind, seed=seed, sub=sub)
+        fxi = fix_inv.make_dataset(frame, ks, bits, psf_kind=psf_kind, seed=seed, sub=sub, units=units)
         st = fix_inv.settings(aa, wt, positive=positive, diag=diag)
         inv = aa.Inversion(dataset=fxi["ds"], linear_obj_list=objs, settings=st)
         fam = "wtilde" if isinstance(inv, aa.InversionImagingWTilde) else "mapping"
@@ -717,13 +940,18 @@ def run_inv(aa, v, case):
             sr = s[reg_idx]
             reg_term = float(sr @ Hr @ sr)
             FHr = (F_ref + H)[ix]
-            sg1, ld_fh = np.linalg.slogdet(FHr)
-            sg2, ld_h = np.linalg.slogdet(Hr)
+            if scaled:
+                sg1, ld_fh, tol_fh = logdet_equilibrated(FHr)
+                sg2, ld_h, tol_h = logdet_equilibrated(Hr)
+            else:
+                sg1, ld_fh = np.linalg.slogdet(FHr)
+                sg2, ld_h = np.linalg.slogdet(Hr)
             if sg1 <= 0 or sg2 <= 0:
                 outcomes.append(fam + ":not-positive-definite")
                 continue
             ld_fh, ld_h = float(ld_fh), float(ld_h)
-            tol_fh, tol_h = ld_tol(FHr), ld_tol(Hr)
+            if not scaled:
+                tol_fh, tol_h = ld_tol(FHr), ld_tol(Hr)
             with np.errstate(all="ignore"):
                 sgf, ld_fh_full = np.linalg.slogdet(F_ref + H)
                 sgh, ld_h_full = np.linalg.slogdet(H)
@@ -753,7 +981,7 @@ def run_inv(aa, v, case):
                 v.ok(True, name)
                 return
             reported.add(name)
-            unreduced = partial and (not np.isfinite(o) or (full is not None and np.isfinite(full) and _close(o, float(full), tol)))
+            unreduced = partial and ((not np.isfinite(o) and not scaled) or (full is not None and np.isfinite(full) and _close(o, float(full), tol)))
             cls = "log_evidence:determinant-not-reduced" if unreduced else name
             v.fail(cls, "%s %s observed=%r expected(reduced to regularized parameters)=%r unreduced=%r" % (tag, name, o, want, full))
 
@@ -763,9 +991,9 @@ def run_inv(aa, v, case):
         # reduced matrices themselves (anchored :366 / :420)
         if reg_idx:
             Hr_o = np.array(inv.regularization_matrix_reduced, dtype=float)
-            v.ok(_close(Hr_o, Hr), "regularization_matrix_reduced", lambda: "%s shape %s vs %s" % (tag, Hr_o.shape, Hr.shape))
+            v.ok(_close(Hr_o, Hr, 0.0, floor), "regularization_matrix_reduced", lambda: "%s shape %s vs %s" % (tag, Hr_o.shape, Hr.shape))
             FHr_o = np.array(inv.curvature_reg_matrix_reduced, dtype=float)
-            v.ok(FHr_o.shape == FHr.shape and np.allclose(FHr_o, FHr, rtol=1e-9, atol=1e-9 * max(1.0, np.abs(FHr).max())),
+            v.ok(FHr_o.shape == FHr.shape and np.allclose(FHr_o, FHr, rtol=1e-9, atol=1e-9 * max(floor, np.abs(FHr).max())),
                  "curvature_reg_matrix_reduced", lambda: "%s shape %s vs %s maxdiff=%s" % (tag, FHr_o.shape, FHr.shape, dom.maxdiff(FHr_o, FHr)))
 
         inv_ref = {"reg_term": reg_term, "ld_fh": ld_fh, "ld_h": ld_h, "obs": {"reg_term": o_reg, "ld_fh": o_fh, "ld_h": o_h},
@@ -776,14 +1004,25 @@ def run_inv(aa, v, case):
         model_nat[u] = mapped
         if extra:
             lab = np.arange(m.size, dtype=float).reshape(m.shape)
-            model_nat = model_nat + np.where(u, 0.05 * ((lab * 3) % 5 - 2.0), 0.0)
+            model_nat = model_nat + np.where(u, 0.05 * ((lab * 3) % 5 - 2.0), 0.0) * units
         d_nat = np.zeros(m.shape)
         d_nat[u] = fx["data"]
-        s_nat = np.ones(m.shape)
+        s_nat = np.ones(m.shape) * units
         s_nat[u] = fx["noise"]
         # second-fit history on the same dataset: once per formalism (slim for mapping, mask-in-fit for w-tilde), steps rotating
         step = ("own",) if (npix + len(kinds) + int(wt)) % 2 == 0 else ("edit",)
         hist = {"sky": SKIES[(npix + int(wt)) % 3], "salt": bits + len(kinds), ("mask-in-fit" if wt else "slim"): step}
-        run_fits(v, aa, mask, m, d_nat, model_nat, s_nat, tag, inversion=inv, inv_ref=inv_ref, reported=reported, hist=hist)
+        # structures under their own mask: one (rotating) member of the family per inversion case, in one of the two formalisms
+        own = {"sky": SKIES[(npix + 1 + int(wt)) % 3], "salt": bits + len(kinds) + int(wt), "count": 1}
+        if scaled:
+            # one (rotating) sky level in the dataset's units, garbage in the dataset's units, no second-fit history
+            sky_u = SKIES[(npix + len(kinds) + int(wt)) % 3] * units
+            own["sky"] = sky_u
+            run_fits(v, aa, mask, m, d_nat, model_nat, s_nat, tag, inversion=inv, inv_ref=inv_ref, reported=reported,
+                     own=own, skies=[sky_u], gscale=units, floor=0.0)
+        else:
+            run_fits(v, aa, mask, m, d_nat, model_nat, s_nat, tag, inversion=inv, inv_ref=inv_ref, reported=reported, hist=hist,
+                     own=own if (npix + len(kinds) + int(wt)) % 2 == 0 else None)
         outcomes.append("%s:%s" % (fam, "reg" if all(regs) else ("partial" if partial else "unreg")))
-    v.outcome = "inv:L%d:%s:%s%s" % (len(kinds), "pos" if positive else "pn", "|".join(outcomes), ":tiny-coefficient" if tiny else "")
+    v.outcome = "inv:L%d:%s:%s%s%s%s" % (len(kinds), "pos" if positive else "pn", "|".join(outcomes), ":tiny-coefficient" if tiny else "",
+                                       ":other-units" if scaled else "", ":few-hundred-parameters" if "rectL" in kinds else "")
